@@ -42,6 +42,12 @@ def make_table(rng):
     t.sort(key=lambda r: r["model"])
     for i, r in enumerate(t):
         r["serial"] = i + 1
+    # model numbers need not be 1..n in file order: a subset of an ensemble keeps its numbers (2, 5), models may be written out of
+    # order (3, 1), a single model may be numbered 4; the blocks stay contiguous
+    if rng.random() < 0.35:
+        pool = rng.choice([[2, 5, 7, 9], [3, 1, 4, 2], [4, 6, 5, 8]])
+        for r in t:
+            r["model"] = pool[r["model"] - 1]
     # keep coordinates apart unless planted: spread the others
     seen = {}
     for r in t:
@@ -124,7 +130,7 @@ def run(ctx):
     rng = ctx.rng
     d = os.path.join(BUILD, "c08")
     os.makedirs(d, exist_ok=True)
-    ctx.coverage["rule"] = ("generated PDB and mmCIF atom tables (1-4 models sharing residue identities, alternate locations, repeated names, atoms planted closer than 0.5 A, "
+    ctx.coverage["rule"] = ("generated PDB and mmCIF atom tables (1-4 models sharing residue identities, numbered 1..n or otherwise (2, 5, ... / 3, 1, ... / 4), alternate locations, repeated names, atoms planted closer than 0.5 A, "
                             "hetero groups, negative numbers, insertion codes, both mmCIF null markers) written by an independent emitter, read with every model number "
                             "present, None and an absent one. Non-trivial = >= 2 models or an altloc / duplicate / clash; distinct by (table, format, model).")
     corr_expr, corr_exp, corr_case = [], [], []
